@@ -8,7 +8,7 @@ CID_TEXT = "d,format,delimited\nf,id,,,,Integer\nf,kind\nc,u,IsUnique,id\nc,k,Di
 FIXED_CID_TEXT = "d,format,fixed\nd,line delimiter,lf\nf,id,,,1,Integer\nf,kind,,,1\nc,u,IsUnique,id\nc,k,DistinctCount,kind < 3\n"
 CLEAN = "1,a\n2,b\n"; DUP = "1,a\n1,b\n"; MANY = "1,a\n2,b\n3,c\n"        # MANY fails the distinct count at the end
 OTHER = "5,x\n6,y\n"                                                        # fine on its own; together with what CLEAN leaves behind it would exceed the distinct count
-OPS = ["read_clean", "read_dup", "read_many", "abandon1", "abandon2", "read_noclose", "write", "write_close", "write_dup", "two_readers", "validate_0", "validate_1", "reader_unused", "read_other", "write_nothing", "rows_fed_directly"]
+OPS = ["read_clean", "read_dup", "read_many", "abandon1", "abandon2", "read_noclose", "write", "write_close", "write_dup", "two_readers", "validate_0", "validate_1", "reader_unused", "read_other", "write_nothing", "rows_fed_directly", "nothing_fed"]
 
 
 def run_op(cid, op):
@@ -52,6 +52,11 @@ def run_op(cid, op):
             try: r.close(); res.append("closed")
             except errors.DataError as e: res.append("end:" + e.message[:30])
             return res
+        return outcome(f)
+    if op == "nothing_fed":                        # a validator of one's own (BaseValidator, rows fed by hand) that gets no row at all and is closed
+        def f():
+            v = validio.BaseValidator(cid); v._location = errors.Location("<io>", has_cell=True)
+            v.close(); return "closed"
         return outcome(f)
     if op == "write_nothing":                      # a writer that is closed without having written a row: the end-of-data checks see an empty data set
         def f():
